@@ -176,7 +176,7 @@ class DataSaveable:
         """
         if with_axis is not None:
             data = self._data_with_axis(with_axis)
-            numpy.save_compressed(file, data=data)
+            numpy.savez_compressed(file, data=data)
         else:
             numpy.savez_compressed(file, data=self.data)
 
